@@ -304,12 +304,15 @@ def check_cone(run, repo, entries, label=''):
     if types is None:
         from ..types import Types
         types = repo._types = Types(repo)
+    from . import libkind
+    nk = 0
     for f in cone:
         na += check_names(run, f)
         nb += check_lib_attrs(run, f)
         nc += check_calls(run, repo, f)
         nc += check_methods(run, repo, f, types)
-    run.ok('R1', None, 'cone%s: %d functions, %d names, %d library attribute chains, %d repo calls resolved'
-           % ((' ' + label) if label else '', len(cone), na, nb, nc))
+        nk += libkind.check_function(run, repo, f)       # R19: no numpy operation consumes a tensor, no tensor is used as qubit indices
+    run.ok('R1', None, 'cone%s: %d functions, %d names, %d library attribute chains, %d repo calls resolved, %d numpy call / index / unpack sites kind-checked'
+           % ((' ' + label) if label else '', len(cone), na, nb, nc, nk))
     run.cones[label or 'main'] = sorted('%s::%s' % (f.rel, f.qual) for f in cone)
     return cone
